@@ -102,6 +102,7 @@ type Sim struct {
 var mandatory = map[string]bool{
 	"worker.wake":         true,
 	"worker.start":        true,
+	"queryEventExpire":    true, // woken by the clock, possibly together with another timer
 	"Shutdown":            true,
 	"runWith.afterSignal": true,
 	"task.start":          true,
